@@ -66,6 +66,10 @@ mut('bulk criterion theta instead of theta^2 (isotropic)', 'C06',
             if cumsum >= eta_tot_sqr * theta**2:''',
      '''            cumsum += eta_sqr[i]
             if cumsum >= eta_tot_sqr * theta:'''))
+mut('anisotropic marking stops only when the bulk is strictly exceeded', 'C06',
+    (MESH, """            cumsum += val
+            if cumsum >= eta_tot_sqr * theta**2:""", """            cumsum += val
+            if cumsum > eta_tot_sqr * theta**2:"""))
 mut('space-marked elements not followed to their time children', 'C06',
     (MESH, '''            if elem.children:
                 marked_space.extend(elem.children)
